@@ -184,6 +184,26 @@ def body_eq(case, ctx):
         if not got.ok or bool(got.value) != expect:
             raise Violation("eq:overlapping-views", expected=expect, got=got.brief(), windows=[i, j, L])
         return
+    if mode in ("other-dtype-same", "other-dtype-differs") and n >= 1:
+        # the same field held in another element type: equal numbers are equal, a difference of one half is a difference -
+        # whichever object stands on the left
+        ints = [j for j, f in enumerate(fs) if f.dtype.kind in "iu" and f.size and int(np.abs(f.astype(np.float64)).max()) < 2**40]
+        if ints:
+            j = ints[case["j"] % len(ints)]
+            other = fs[j].astype(np.float64)
+            if mode == "other-dtype-differs":
+                flat = other.reshape(-1)
+                flat[case["p"] % flat.size] += 0.5
+            fs2[j] = other
+            expect = mode == "other-dtype-same"
+            ctx.label("k:%d" % k, "expect-equal" if expect else "expect-unequal:" + mode)
+            ctx.nt()
+            o2 = cls(k)(*fs2)
+            for name, f in (("left", lambda: o1 == o2), ("right", lambda: o2 == o1)):
+                got = lib(f)
+                if not got.ok or bool(got.value) != expect:
+                    raise Violation("eq:other-dtype", expected=expect, got=got.brief(), mode=mode, int_field_on=name)
+            return
     if mode in ("one-vs-repeats", "repeats-vs-one") and n >= 1:
         # a one-entry object against a longer object whose every entry repeats it: different lengths, hence not equal
         m = 2 + case["p"] % 3
@@ -306,7 +326,7 @@ def concat_case(draw, tier):
 @st.composite
 def eq_case(draw, tier):
     fields, n = draw(fields_st())
-    return {"fields": fields, "n": n, "mode": draw(st.sampled_from(["same", "change", "change", "shorter", "views", "views", "one-vs-repeats", "repeats-vs-one"])),
+    return {"fields": fields, "n": n, "mode": draw(st.sampled_from(["same", "change", "change", "shorter", "views", "views", "one-vs-repeats", "repeats-vs-one", "other-dtype-same", "other-dtype-differs"])),
             "j": draw(st.integers(0, 3)), "p": draw(st.integers(0, 1000))}
 
 
